@@ -288,8 +288,9 @@ UNITS.append(Unit("hlp.suspend", "suspend.c", enforce="suspend", lifts={"body": 
         "(interruption points before and after the yield); otherwise one hand-over, abort -> yield_aborted, anything else returned"))
 
 # the timed overload, this_thread::suspend(abs_time, ...): the C02 unit (same template, same contract) is run here as well
-_c02 = {}
-exec(compile(open("/verif/specs/C02/spec.py").read(), "/verif/specs/C02/spec.py", "exec"), _c02)
+_c02 = {"UNITS": [], "VX_NO_REUSE": True}
+if not globals().get("VX_NO_REUSE"):     # reuse is never transitive: the other spec is loaded without ITS reuse blocks (no cycles)
+    exec(compile(open("/verif/specs/C02/spec.py").read(), "/verif/specs/C02/spec.py", "exec"), _c02)
 for _u in _c02["UNITS"]:
     if _u.name == "timed.suspend_until":
         _u.name = "c02." + _u.name
@@ -303,8 +304,9 @@ META["trusted_base"] = list(META.get("trusted_base", [])) + [
 # ---- C12 unit reused (added after seeded change C13-7 was missed): join()/~jthread register an exit callback on the target's
 # ---- thread_data, which is RECYCLED: add_thread_exit_callback refuses when ran_exit_funcs_ is set, so "join waits for the
 # ---- thread function" needs rebind_base to hand out a descriptor whose exit-callback bookkeeping is that of a fresh one
-_c12 = {"__name__": "c12_reuse"}
-exec(compile(open("/verif/specs/C12/spec.py").read(), "/verif/specs/C12/spec.py", "exec"), _c12)
+_c12 = {"UNITS": [], "VX_NO_REUSE": True, "__name__": "c12_reuse"}
+if not globals().get("VX_NO_REUSE"):     # reuse is never transitive: the other spec is loaded without ITS reuse blocks (no cycles)
+    exec(compile(open("/verif/specs/C12/spec.py").read(), "/verif/specs/C12/spec.py", "exec"), _c12)
 for _u in _c12["UNITS"]:
     if _u.name == "recycle.rebind_base":
         _u.name = "c12." + _u.name
